@@ -140,9 +140,15 @@ Defines(f, name) ==
 
 ValIn(f, name) == IF f.kind = "sv" THEN SvLookup(f.x, name) ELSE f.b[name]
 
+\* a frame of kind "none" is the value None pushed as a mapping (dtml-with x mapping / dtml-in s mapping with x or an element
+\* being None): reading it raises TypeError, which no search catches (result -1)
+IsNone(v) == v.k = "plain" /\ "none" \in DOMAIN v
+NoneMsg == "'NoneType' object is not subscriptable"
+
 RECURSIVE FindFrom(_, _)
 FindFrom(i, name) ==
     IF i = 0 THEN 0
+    ELSE IF ns[i].kind = "none" THEN -1
     ELSE IF Defines(ns[i], name) THEN i
     ELSE IF ns[i].bar THEN 0
     ELSE FindFrom(i - 1, name)
@@ -169,6 +175,7 @@ Quiet(out) == [calls |-> calls, ninv |-> ninv, out |-> out]
 MdGet(name) ==
     LET i == Find(name) IN
     IF i = 0 THEN Quiet([tag |-> "exc", e |-> Raised("KeyError", name)])
+    ELSE IF i = -1 THEN Quiet([tag |-> "exc", e |-> Raised("TypeError", NoneMsg)])
     ELSE LET v == ValIn(ns[i], name) IN
          IF v.k = "fn" THEN Invoke(v)
          ELSE IF v.k = "tmpl" THEN Quiet([tag |-> "tmpl", v |-> v])
@@ -178,6 +185,7 @@ MdGet(name) ==
 MdRaw(name) ==
     LET i == Find(name) IN
     IF i = 0 THEN Quiet([tag |-> "exc", e |-> Raised("NameError", name)])
+    ELSE IF i = -1 THEN Quiet([tag |-> "exc", e |-> Raised("TypeError", NoneMsg)])
     ELSE Quiet([tag |-> "val", v |-> ValIn(ns[i], name)])
 
 \* references:  name n | expr "n()" | expr "n" | expr "not n" | expr "o.a"
@@ -464,7 +472,9 @@ RbWith ==
          /\ calls' = q.calls /\ ninv' = q.ninv
          /\ IF q.out.tag = "exc"
             THEN exc' = q.out.e /\ UNCHANGED <<ctl, ns, evs>>
-            ELSE LET f0 == Frame(IF Node.mapping THEN "map" ELSE "inst", q.out.v.a)
+            ELSE LET f0 == IF IsNone(q.out.v)
+                           THEN Frame(IF Node.mapping THEN "none" ELSE "inst", EmptyFn)
+                           ELSE Frame(IF Node.mapping THEN "map" ELSE "inst", q.out.v.a)
                      f  == [f0 EXCEPT !.bar = Node.only] IN
                  /\ ns' = Append(ns, f)
                  /\ evs' = IF Node.only THEN evs ELSE Append(evs, PushEv(f.kind, Len(ns) + 1))
@@ -527,11 +537,11 @@ RbIn ==
 ItemFrames(nd, e) ==
     LET c == ItemOf(e) IN
     IF nd.nopush THEN <<>>
-    ELSE IF nd.mapping THEN <<Frame("map", c.a)>>
+    ELSE IF nd.mapping THEN (IF IsNone(c) THEN <<Frame("none", EmptyFn)>> ELSE <<Frame("map", c.a)>>)
     \* strings are not pushed -- the type test is made on the element before a (key, value)
     \* pair is split, so the string of a pair is pushed (as an InstanceDict without useful names)
-    ELSE IF c.k = "plain" /\ "num" \notin DOMAIN c /\ e.k # "pair" THEN <<>>
-    ELSE IF c.k = "plain" THEN <<Frame("inst", EmptyFn)>>           \* numbers: InstanceDict(int)
+    ELSE IF c.k = "plain" /\ "num" \notin DOMAIN c /\ "none" \notin DOMAIN c /\ e.k # "pair" THEN <<>>
+    ELSE IF c.k = "plain" THEN <<Frame("inst", EmptyFn)>>           \* numbers, None: InstanceDict(int), InstanceDict(None)
     ELSE <<Frame("inst", c.a)>>
 
 InItem ==
